@@ -28,6 +28,7 @@ func main() {
 	explain := flag.String("explain", "", "print a violations file in readable form")
 	goarch := flag.String("goarch", "", "GOARCH to analyse for")
 	list := flag.Bool("list", false, "list registered properties")
+	explore := flag.String("explore", "", "diagnostic listing (not a check)")
 	evdir := flag.String("evidence-dir", "", "write evidence here instead of <verif>/evidence (used by the mutation self-tests)")
 	flag.Parse()
 
@@ -40,6 +41,20 @@ func main() {
 		for _, id := range ids {
 			fmt.Println(id)
 		}
+		return
+	}
+	if *explore != "" {
+		p, err := LoadProgram(LoadOpts{RepoDir: *repo, GOARCH: *goarch})
+		if err != nil {
+			fmt.Println(err)
+			os.Exit(2)
+		}
+		f, ok := explorations[*explore]
+		if !ok {
+			fmt.Println("unknown exploration")
+			os.Exit(2)
+		}
+		f(p)
 		return
 	}
 	if *explain != "" {
